@@ -119,7 +119,8 @@ def run_grammar(case):
         rdo, w1o = _roundtrip(rdclass, rdtype, w, o, flags, tname + "+origin")
         if rdo is None:
             raise Violation("origin", f"{tname}: wire accepted without origin but rejected with one", "origin-reject:" + tname)
-        if w1o != w1:
+        # a name relativized against the origin comes back in the origin's own spelling
+        if w1o.lower() != w1.lower() or len(w1o) != len(w1):
             raise Violation("origin", f"{tname}: to_wire(origin=) after relativizing gives {w1o.hex()}, expected {w1.hex()}", "origin-wire:" + tname)
         classes.append("with-origin")
         try:
